@@ -96,6 +96,55 @@ pub fn check_pair(sources: &Sources, base_yaml: &str, through_cli: bool, r: &mut
         r.fail(f);
         return "document";
     }
+    // The base is a stale copy of the program's own output: every path and every schema name
+    // the program emits is already in the base, with other contents, next to one schema and one
+    // path only the base has. All of them are replaced, none survives.
+    {
+        let p = serde_json::to_value(&without).unwrap();
+        let (_, ppaths, pschemas) = split(&p);
+        let mut b = serde_json::to_value(&base).unwrap();
+        let mut stale_paths = Map::new();
+        for k in ppaths.as_object().map(|m| m.keys().cloned().collect::<Vec<_>>()).unwrap_or_default() {
+            stale_paths.insert(k, json!({"description": "STALE"}));
+        }
+        stale_paths.insert("/stale-only".to_owned(), json!({"description": "STALE"}));
+        let mut stale_schemas = Map::new();
+        let names = pschemas.as_object().map(|m| m.keys().cloned().collect::<Vec<_>>()).unwrap_or_default();
+        for k in &names {
+            stale_schemas.insert(k.clone(), json!({"type": "boolean", "description": "STALE"}));
+        }
+        stale_schemas.insert("stale-only".to_owned(), json!({"type": "boolean", "description": "STALE"}));
+        let m = b.as_object_mut().unwrap();
+        m.insert("paths".to_owned(), Value::Object(stale_paths));
+        let comps = m.entry("components".to_owned()).or_insert_with(|| json!({}));
+        if !comps.is_object() {
+            *comps = json!({});
+        }
+        comps.as_object_mut().unwrap().insert("schemas".to_owned(), Value::Object(stale_schemas));
+        if let Ok(stale) = serde_json::from_value::<openapiv3::OpenAPI>(b) {
+            r.label("stale-own-output-as-base");
+            if !names.is_empty() {
+                r.label("stale-base-shares-schema-names");
+            }
+            match catch(|| pipeline(sources, Some(stale.clone()))) {
+                Ok(Outcome::Document { api, .. }) => {
+                    if let Err(mut f) = frame_check(&stale, &api, &without) {
+                        f.signature = format!("{}:stale-own-output", f.signature);
+                        r.fail(f);
+                        return "document";
+                    }
+                }
+                Ok(_) => {
+                    r.fail(Failure::new("c14:base-changes-verdict:stale-own-output", "the program compiles without a base but not on a stale copy of its own output".to_owned()));
+                    return "document";
+                }
+                Err(p) => {
+                    r.fail(Failure::new(p.signature(), format!("panic with a stale copy of the own output as base at {}: {}", p.location, p.message)));
+                    return "document";
+                }
+            }
+        }
+    }
     if through_cli {
         r.label("through-cli");
         DIR.with(|d| {
@@ -183,7 +232,7 @@ impl Property for C14 {
          parameters, examples, requestBodies, headers, links and extensions; half of them with paths and schemas of their own) x accepted \
          generated programs (with and without schema components). Oracle: with B = the base as read by serde_yaml::from_str::<OpenAPI>, O = \
          Builder::new(spec).with_base(B).into_openapi(), P = the base-less output: O minus {paths, components.schemas} equals B minus the same \
-         (components absent == {}), O.paths == P.paths, O.components.schemas == P.components.schemas; 1 pair in 12 also goes through the real \
+         (components absent == {}), O.paths == P.paths, O.components.schemas == P.components.schemas; then the same three equations with B' = B whose paths and components.schemas hold every path and schema name of P with stale contents plus one path and one schema of its own (a stale copy of the own output as base); 1 pair in 12 also goes through the real \
          oal-cli --base. Non-trivial: a base with >= 1 non-schema component map and >= 1 of {security, tags, server variables, own paths, own \
          schemas}. Distinct by hash of (sources, base)."
             .to_owned()
@@ -207,7 +256,7 @@ impl Property for C14 {
         };
         let through_cli = tape.chance(1, 8);
         let class = check_pair(&sources, &base_yaml, through_cli, &mut r);
-        r.evaluations = 2;
+        r.evaluations = 3;
         r.label(format!("class:{class}"));
         if info.has_paths {
             r.label("base-has-paths");
